@@ -4,7 +4,8 @@ The access-path layer above the merged configuration (src/nunavut/lang/__init__.
 
 * `Language.__init__`  — a language object is a *view* of one section of the `LanguageConfig` it was given;
   constructing it runs the language class' `_validate_language_options` on the `options` dict that lives
-  inside that configuration (C++: the `std` shorthand groups, Python: forced asserts) — `newLanguage`;
+  inside that configuration (C++: the `std` shorthand groups, Python: forced asserts) — `initSection`,
+  `newLanguage`; a section without an `options` mapping gives the object a private validated `{}` (`LangObj.own`);
 * `LanguageContextBuilder.create()` — resolve the target, merge the pending overrides into the target's
   section, THEN construct the target language (`BS.create`);
 * `LanguageContext` = (configuration, target language, lazily built map of all languages):
